@@ -186,7 +186,7 @@ func WorkerMain() {
 	fmt.Printf("DONE %d programs, %d workload runs\n", n, reps*len(names))
 }
 
-var frameRe = regexp.MustCompile(`(?m)^\s+(github\.com/go-task/task/v3[^\s(]*)\(`)
+var frameRe = regexp.MustCompile(`(?m)^\s+(github\.com/go-task/task/v3\S*?)\(\)\s*$`)
 
 type report struct {
 	Sig  string
